@@ -321,12 +321,15 @@ class _Gen:
         if r < 0.64:
             a, b = self.comm_list(), self.comm_list()
             return P.emit("cond", [a, b, self.scalar(depth - 1), self.comm_list()], cmp=rng.choice(["lt", "gt", "le", "ge"]))
-        if r < 0.70 and self.vars:
+        if r < 0.72:
             # derivative with respect to one of the variables
-            v = rng.choice(self.vars)
-            e = _assoc(P, [v, self.comm_list("var"), self.scalar(depth - 1)], "mul")
-            self.features.add("diff")
-            return P.emit("diff", [e, v])
+            if not self.vars:
+                self.atom("var")
+            if self.vars:
+                v = rng.choice(self.vars)
+                e = _assoc(P, [v, self.comm_list("var"), self.scalar(depth - 1)], "mul")
+                self.features.add("diff")
+                return P.emit("diff", [e, v])
         if r < 0.76:
             return P.emit("sub", [self.scalar(depth - 1), self.comm_list()])
         return self.comm_list()
